@@ -93,12 +93,68 @@ def getAdjacencyValues (nRow nCol : Nat) (symmetric allowDirected forceBipartite
     if bip then
       (match values with
        | none => stackValues nRow nCol valuesRow valuesCol dflt
-       | some v => stackValues nRow nCol (some v) none dflt)
+       | some v => stackValues nRow nCol (some v) valuesCol dflt)    -- `values` = alias of `values_row`
     else getValues nRow values dflt
   pure ⟨bip, if bip then nRow + nCol else nRow, postValues w vals⟩
 
-/-- `_split_vars`: (unsuffixed, row, col) from the vector over all `n_row + n_col` nodes -/
+/-- `_split_vars`: (unsuffixed, row, col) from the vector over all `n_row + n_col` nodes
+    (ranking, clustering, embedding, regression bases and `RankClassifier`; a matrix is split row-wise,
+    i.e. every column as a vector) -/
 def splitVars (nRow : Nat) (x : List α) : List α × List α × List α :=
   (x.take nRow, x.take nRow, x.drop nRow)
+
+/-- `BaseClassifier._split_vars`: on a plain graph the row and the column outputs are the whole vector -/
+def splitVarsClassifier (bipartite : Bool) (nRow : Nat) (x : List α) : List α × List α × List α :=
+  if bipartite then splitVars nRow x else (x, x, x)
+
+/-! ### the block matrices as they are built: `sparse.bmat` on the stored entries -/
+
+def sumQ : List Rat → Rat
+  | [] => 0
+  | x :: xs => x + sumQ xs
+
+/-- the stored entries of a CSR matrix as COO triples `(row, column, value)`, in storage order
+    (unsorted indices, duplicates and explicit zeros are kept) -/
+def triples (c : Csr Rat) : List (Nat × Nat × Rat) :=
+  (List.range c.nRow).flatMap fun i => (c.row i).map fun p => (i, p.1, p.2)
+
+/-- the matrix a list of COO triples stands for: duplicates are added up (`tocsr`, `toarray`) -/
+def denote (t : List (Nat × Nat × Rat)) (i j : Nat) : Rat :=
+  sumQ ((t.filter fun e => e.1 == i && e.2.1 == j).map (·.2.2))
+
+/-- `sparse.bmat([[None, B], [B.T, None]])`: the entries of `B` shifted to the right, then those of `Bᵀ`
+    shifted down (`bipartite2undirected`; `sort_indices` does not change the denotation) -/
+def blockTriples (c : Csr Rat) : List (Nat × Nat × Rat) :=
+  (triples c).map (fun e => (e.1, c.nRow + e.2.1, e.2.2)) ++
+  (triples c).map (fun e => (c.nRow + e.2.1, e.1, e.2.2))
+
+/-- `sparse.bmat([[None, B], [csr_matrix((n_col, n_row)), None]])` (`bipartite2directed`) -/
+def blockDirTriples (c : Csr Rat) : List (Nat × Nat × Rat) :=
+  (triples c).map (fun e => (e.1, c.nRow + e.2.1, e.2.2))
+
+/-- `is_symmetric`: `(M - M.T).nnz == 0` on a square matrix -/
+def isSymmetric (c : Csr Rat) : Bool :=
+  c.nRow == c.nCol && (List.range c.nRow).all fun i => (List.range c.nRow).all fun j =>
+    denote (triples c) i j == denote (triples c) j i
+
+structure Adjacency where
+  bipartite : Bool
+  nNodes : Nat
+  entries : List (Nat × Nat × Rat)
+deriving Repr
+
+/-- `get_adjacency(input_matrix, allow_directed, force_bipartite, force_directed, allow_empty)` -/
+def getAdjacency (c : Csr Rat) (allowDirected forceBipartite forceDirected allowEmpty : Bool) :
+    Except PyErr Adjacency :=
+  if !allowEmpty && c.indices.size == 0 then .error .valueError      -- check_format
+  else
+    let bip := isBipartite forceBipartite (c.nRow == c.nCol) allowDirected (isSymmetric c)
+    if bip then
+      .ok ⟨true, c.nRow + c.nCol, if forceDirected then blockDirTriples c else blockTriples c⟩
+    else .ok ⟨false, c.nRow, triples c⟩
+
+/-- dense rendering of a square matrix given by its triples -/
+def dense (n : Nat) (t : List (Nat × Nat × Rat)) : List (List Rat) :=
+  tab n fun i => tab n fun j => denote t i j
 
 end SkNet.Bip
